@@ -155,6 +155,9 @@ func c07Round(rep *Report, m *MultiFixture, round int, ts []c07Tunnel) {
 	if round%2 == 0 {
 		c07InRace(rep, m, round, "C07")
 	}
+	if m.Kind == "openid" {
+		c07TwoAddresses(rep, m, round)
+	}
 	sort.Slice(evs, func(i, j int) bool { return evs[i].seq < evs[j].seq })
 	var sb strings.Builder
 	for _, e := range evs {
@@ -468,4 +471,67 @@ func c07InRace(rep *Report, m *MultiFixture, round int, prop string) {
 		}
 		hc.Close()
 	}
+}
+
+// c07TwoAddresses: two tunnels of one login session, each from its own client
+// address with the token issued to that address, set up interleaved: what one
+// tunnel's tunnel-create established must not be what the other tunnel is judged by.
+func c07TwoAddresses(rep *Report, m *MultiFixture, round int) {
+	u := m.Users[round%len(m.Users)]
+	if u.Cookie2 == "" {
+		return
+	}
+	tr := Transports()[round%len(Transports())]
+	mk := func(local, cookie string) (*TClient, []Sym) {
+		env := m.Env(u, tr)
+		env.LocalIP = local
+		env.W = 10 * time.Second
+		t, _, err := env.OpenTunnel(NewConnID("2a"))
+		if err != nil || t == nil {
+			return nil, nil
+		}
+		return t, []Sym{m.SymHS(), {Kind: "TC", Wire: TunnelCreate(0, &cookie)}, SymTAx(), SymCCx(u.B)}
+	}
+	a, sa := mk("127.0.0.1", u.Cookie)
+	b, sb := mk("127.0.0.2", u.Cookie2)
+	if a == nil || b == nil {
+		if a != nil {
+			a.Close()
+		}
+		if b != nil {
+			b.Close()
+		}
+		rep.Inconclusive("two-address probe: open")
+		return
+	}
+	defer a.Close()
+	defer b.Close()
+	step := func(t *TClient, syms []Sym, i int) uint32 {
+		t.Send(syms[i].Wire)
+		if n, _ := t.WaitPackets(i+1, 10*time.Second); n < i+1 {
+			return 0xFFFFFFFF
+		}
+		st, _ := LenientStatus(t.Snapshot().Packets[i].Raw)
+		return st
+	}
+	// order: A.HS A.TC | B.HS B.TC B.TA B.CC | A.TA A.CC
+	var sts []uint32
+	sts = append(sts, step(a, sa, 0), step(a, sa, 1))
+	for i := 0; i < 4; i++ {
+		sts = append(sts, step(b, sb, i))
+	}
+	sts = append(sts, step(a, sa, 2), step(a, sa, 3))
+	rep.Eval(HashStr("two-addresses", tr, sts))
+	rep.Count("two_address_probes", 1)
+	for i, st := range sts {
+		if st != 0 {
+			who := "127.0.0.1"
+			if i >= 2 && i < 6 {
+				who = "127.0.0.2"
+			}
+			rep.Violate("C07/unexpected-response/two-addresses-of-one-session/"+tr, fmt.Sprintf("user %s has tunnels from 127.0.0.1 and 127.0.0.2, each with the token issued to that address; step %d (tunnel from %s) answered %#x, alone every step succeeds (statuses %x)", u.Name, i, who, st, sts), nil)
+			break
+		}
+	}
+	u.B.Reset()
 }
